@@ -301,6 +301,7 @@ func c08SysRun(e *vh.Env, c c07Sys, o *vh.Out) {
 		}
 		sc := scripts[ev]
 		rs := vh.Do(sys.Addr, vh.RawReq{Method: "GET", Target: "/r", Headers: [][2]string{{vh.ScriptHeader, sc.Encode()}}, TimeoutMs: 60000, Instant: true})
+		vh.Settle()
 		if rs.Err != "" && ev != 'x' {
 			o.Viol("C08|sys|request-did-not-complete", fmt.Sprintf("%s seq=%s step %d (%c): %s after %v", c.Strategy, c.Seq, i, ev, rs.Err, time.Duration(rs.DurNS)), nil)
 			return
@@ -315,6 +316,7 @@ func c08SysRun(e *vh.Env, c c07Sys, o *vh.Out) {
 	ok := scripts['o']
 	for i := 1; i <= bound; i++ {
 		rs := vh.Do(sys.Addr, vh.RawReq{Method: "GET", Target: "/recover", Headers: [][2]string{{vh.ScriptHeader, ok.Encode()}}, TimeoutMs: 60000, Instant: true})
+		vh.Settle()
 		o.Obs("recovery_requests", 1)
 		if rs.Err != "" {
 			o.Viol("C08|sys|request-did-not-complete", fmt.Sprintf("%s seq=%s recovery request %d: %s", c.Strategy, c.Seq, i, rs.Err), nil)
